@@ -88,6 +88,23 @@ pub struct Batch {
     /// If non-zero: the scenario's first choice is a grid cell in 0..grid, and run i of the
     /// batch is forced to cell i % grid, so that `runs >= grid` enumerates the grid completely.
     pub grid: u64,
+    /// If non-empty: the violation classes this batch judges. The scenario belongs to another
+    /// property's check and is borrowed for the clauses of this property it can observe; every
+    /// other class is that other check's business and is not recorded here.
+    pub classes: &'static [&'static str],
+}
+
+/// What one run executes: the scenario and the classes judged.
+#[derive(Clone, Copy)]
+pub struct Scn {
+    pub f: fn(),
+    pub classes: &'static [&'static str],
+}
+
+impl Batch {
+    pub fn scn(&self) -> Scn {
+        Scn { f: self.f, classes: self.classes }
+    }
 }
 
 pub struct Extra {
@@ -132,7 +149,9 @@ impl Outcome {
 }
 
 /// Executes one run: a pure function of (f, tape).
-pub fn exec_run(f: fn(), tape: Tape, trace: bool) -> Outcome {
+pub fn exec_run(scn: Scn, tape: Tape, trace: bool) -> Outcome {
+    let f = scn.f;
+    world::set_class_filter(scn.classes);
     let mut w = World::new(tape, WorldCfg::default());
     if trace {
         w.trace = Some(Vec::new());
@@ -276,7 +295,7 @@ fn run_batch(prop: &str, b: &Batch, n: u64, master: u64, t: Tier, ignorable: &(d
                         }
                         let seed = run_seed(master, prop, b.name, i);
                         let tape = if b.grid > 0 { Tape::generate_forced(seed, vec![i % b.grid]) } else { Tape::generate(seed) };
-                        let o = exec_run(b.f, tape, false);
+                        let o = exec_run(b.scn(), tape, false);
                         let counts = !o.violations.is_empty() && !ignorable(&o);
                         if !o.violations.is_empty() && !counts && agg.viol.len() >= 4 {
                             // known finding / other property's class: keep a few, do not stop
@@ -307,7 +326,7 @@ fn run_batch(prop: &str, b: &Batch, n: u64, master: u64, t: Tier, ignorable: &(d
 // -------------------------------------------------------------------------------------------
 // shrinking
 
-pub fn shrink(f: fn(), tape: Vec<u64>, key: &str, max_execs: usize, deadline: Instant) -> (Vec<u64>, usize) {
+pub fn shrink(f: Scn, tape: Vec<u64>, key: &str, max_execs: usize, deadline: Instant) -> (Vec<u64>, usize) {
     let mut best = tape;
     let mut execs = 0usize;
     let test = |t: &Vec<u64>, execs: &mut usize| -> bool {
@@ -469,7 +488,13 @@ pub fn class_owners(class: &str) -> Option<&'static [&'static str]> {
 }
 
 pub fn profile_name() -> &'static str {
-    if cfg!(debug_assertions) { "checked" } else { "wrapping" }
+    if std::env::var("VERIF_EVIDENCE_SUFFIX").is_ok_and(|s| s == ".asan") {
+        "wrapping+asan"
+    } else if cfg!(debug_assertions) {
+        "checked"
+    } else {
+        "wrapping"
+    }
 }
 
 pub fn run_property(spec: &Spec, t: Tier, master: u64, write_evidence: bool) -> i32 {
@@ -483,7 +508,11 @@ pub fn run_property(spec: &Spec, t: Tier, master: u64, write_evidence: bool) -> 
     let mut seen_keys: BTreeSet<String> = BTreeSet::new();
     let mut foreign: BTreeSet<String> = BTreeSet::new();
     let scale: f64 = std::env::var("VERIF_SCALE").ok().and_then(|s| s.parse().ok()).unwrap_or(1.0);
+    let only = std::env::var("VERIF_BATCH").ok();
     for b in &spec.batches {
+        if only.as_deref().is_some_and(|o| o != b.name) {
+            continue;
+        }
         let n = match t {
             Tier::Quick => b.quick,
             Tier::Thorough => b.thorough,
@@ -503,6 +532,9 @@ pub fn run_property(spec: &Spec, t: Tier, master: u64, write_evidence: bool) -> 
         };
         let agg = run_batch(spec.id, b, n, master, t, &ignorable);
         let secs = bs.elapsed().as_secs_f64();
+        if std::env::var("VERIF_TIMING").is_ok() {
+            eprintln!("timing {} {}: {} runs in {:.1}s", spec.id, b.name, agg.runs, secs);
+        }
         batch_info.push(J::obj(vec![
             ("batch", J::s(b.name)),
             ("runs", J::u(agg.runs)),
@@ -538,12 +570,12 @@ pub fn run_property(spec: &Spec, t: Tier, master: u64, write_evidence: bool) -> 
             }
             let budget = if b.heavy { 150 } else { 1500 };
             let deadline = Instant::now() + Duration::from_secs(if b.heavy { 30 } else { 20 });
-            let (min_tape, execs) = shrink(b.f, o.tape.clone(), &key, budget, deadline);
-            let rep = exec_run(b.f, Tape::replay(min_tape.clone()), true);
+            let (min_tape, execs) = shrink(b.scn(), o.tape.clone(), &key, budget, deadline);
+            let rep = exec_run(b.scn(), Tape::replay(min_tape.clone()), true);
             let (tape_out, rep) = if rep.first_key().as_deref() == Some(&key) {
                 (min_tape, rep)
             } else {
-                (o.tape.clone(), exec_run(b.f, Tape::replay(o.tape.clone()), true))
+                (o.tape.clone(), exec_run(b.scn(), Tape::replay(o.tape.clone()), true))
             };
             let v = rep.violations.first().cloned().unwrap_or_else(|| o.violations[0].clone());
             let path = verif_dir().join("replays").join(format!("{}-{}-{}.json", spec.id, b.name, seed));
@@ -700,7 +732,7 @@ pub fn run_property(spec: &Spec, t: Tier, master: u64, write_evidence: bool) -> 
 }
 
 /// Re-executes a replay file in this (fresh) process; exit 1 if the violation reproduces.
-pub fn replay_file(path: &str, find_batch: impl Fn(&str, &str) -> Option<fn()>) -> i32 {
+pub fn replay_file(path: &str, find_batch: impl Fn(&str, &str) -> Option<Scn>) -> i32 {
     let s = match std::fs::read_to_string(path) {
         Ok(s) => s,
         Err(e) => {
